@@ -900,8 +900,10 @@ func (i *interpreter) timeValue(sec, nsec value) value {
 func ext۰time۰Now(fr *frame, a []value) value {
 	i := fr.i
 	sec := i.nondet("now.sec", 64).(*Term)
-	nsec := i.nondet("now.nsec", 32).(*Term)
+	nsec0 := i.nondet("now.nsec", 32).(*Term)
 	tt := i.tt
+	// 30 bits zero-extended (sign and monotonic bits syntactically zero)
+	nsec := tt.Bin(OpLShr, nsec0, tt.Const(32, 2))
 	i.assume(tt.Cmp(OpSle, tt.Const(64, 1230768000), sec)) // 2009-01-01
 	i.assume(tt.Cmp(OpSle, sec, tt.Const(64, 4102444800))) // 2100-01-01
 	i.assume(tt.Cmp(OpUlt, nsec, tt.Const(32, 1000000000)))
